@@ -1536,6 +1536,22 @@ fn run(a: &Args) {
                                             cur = (pos + 1) % n;
                                         }
                                     }
+                                    // C04: after an iteration that dispatched, the cursor stands right behind the worker that
+                                    // got the LAST connection (every dispatch advances it; seed13 C04-25 left it on a worker
+                                    // the send had just saturated, so that worker is served twice in a row once it releases)
+                                    if !w.any_die && !report.exited && after.handles == before.handles && !after.handles.is_empty() {
+                                        if let Some(last) = d.last() {
+                                            if let Some(pos) = after.handles.iter().position(|h| h == last) {
+                                                let want = (pos + 1) % after.handles.len();
+                                                if after.next != want {
+                                                    let msg = format!(
+                                                        "the last connection of this iteration went to worker {last} (slot {pos} of {:?}) but the round-robin cursor is at slot {} afterwards, not {want}: the next connection does not go to the next worker in turn",
+                                                        after.handles, after.next);
+                                                    w.t3.push(("C04".into(), msg));
+                                                }
+                                            }
+                                        }
+                                    }
                                     // every interest that was queued when the iteration began is handled by it: the loop drains
                                     // its queue each time it is woken (nothing is pushed during an iteration without a
                                     // schedule). An interest left behind waits for a wake-up that may never come — a Resume or
